@@ -481,3 +481,35 @@ package commonmark
 //@   ensures[bucket] result
 //@   inlinecall delimiterStackElement.openersBottomIndex
 //@   serves C11
+
+// ---------------------------------------------------------------------------
+// HTML escaping (C07): nothing escapeHTML appends can open a tag, close a
+// quote or start an entity of its own: none of < > " ' is appended, and every
+// & appended starts one of the five entities it emits.
+// ---------------------------------------------------------------------------
+
+//@ spec HTMLSpecial(c int) bool = c == '<' || c == '>' || c == '"' || c == '\''
+//@ spec EntityAt(s []byte, p int) bool = p + 4 <= len(s) && s[p] == '&' && (
+//@       (s[p+1] == 'l' && s[p+2] == 't' && s[p+3] == ';')
+//@    || (s[p+1] == 'g' && s[p+2] == 't' && s[p+3] == ';')
+//@    || (p + 5 <= len(s) && s[p+1] == 'a' && s[p+2] == 'm' && s[p+3] == 'p' && s[p+4] == ';')
+//@    || (p + 5 <= len(s) && s[p+1] == '#' && s[p+2] == '3' && s[p+3] == '9' && s[p+4] == ';')
+//@    || (p + 6 <= len(s) && s[p+1] == 'q' && s[p+2] == 'u' && s[p+3] == 'o' && s[p+4] == 't' && s[p+5] == ';'))
+//@ spec Escaped(s []byte, a int, b int) bool = forall p in [a, b): !HTMLSpecial(s[p]) && (s[p] == '&' ==> (EntityAt(s, p) && p + 4 <= b))
+
+//@ func escapeHTML
+//@   requires !sameArray(dst, src) || isnil(dst)
+//@   modifies dst[len(dst):cap(dst)], alloc
+//@   ensures[len] len(result) >= len(dst)
+//@   ensures[prefix] forall k in [0, len(dst)): result[k] == old(dst[k])
+//@   ensures[escaped] Escaped(result, len(dst), len(result))
+//@   loop 0: invariant[idx] 0 <= verbatimStart && verbatimStart <= i
+//@   loop 0: invariant[len] len(dst) >= len(old(dst))
+//@   loop 0: invariant[prefix] forall k in [0, len(old(dst))): dst[k] == old(dst[k])
+//@   loop 0: invariant[escaped] Escaped(dst, len(old(dst)), len(dst))
+//@   loop 0: invariant[pending] forall k in [verbatimStart, i): !HTMLSpecial(src[k]) && src[k] != '&'
+//@   loop 0: invariant[src] forall k in [0, len(src)): src[k] == old(src[k])
+//@   loop 0: invariant[alias] !sameArray(dst, src) || isnil(dst)
+//@   loop 0: invariant[where] fresh(dst) || (aliases(dst, old(dst)) && cap(dst) == cap(old(dst)))
+//@   loop 0: invariant[frame] framed()
+//@   serves C07, C04
